@@ -24,7 +24,8 @@ def sh(cmd, cwd=None, timeout=3600, env=None):
 
 
 def main():
-    prop, which = sys.argv[1], sys.argv[2]
+    key, which = sys.argv[1], sys.argv[2]  # key = property id, optionally with a wave suffix (C14w2)
+    prop = key[:3]
     args = sys.argv[3:]
     skip_tests = "--skip-tests" in args
     checks = [prop]
@@ -33,9 +34,9 @@ def main():
         checks = args[args.index("--checks") + 1].split(",")
     if "--tier" in args:
         tier = args[args.index("--tier") + 1]
-    wt = f"/tmp/wt/{prop}"
-    src = f"/tmp/wt/{prop}-out/{which}"
-    sid = f"agent-{prop.lower()}-{which.lower()}"
+    wt = f"/tmp/wt/{key}"
+    src = f"/tmp/wt/{key}-out/{which}"
+    sid = f"agent-{key.lower()}-{which.lower()}"
     dst = os.path.join(VERIF, "seeded", sid)
     meta = {"id": sid, "property": prop, "origin": "written by a sub-agent that saw only the property text and its own worktree"}
     old_meta = {}
